@@ -327,6 +327,12 @@ func faultPlans(l *Log, start Pos, pacing string, stride int, r *rand.Rand) []At
 		a := base()
 		a.HandlerErrAt = k
 		out = append(out, a)
+		for _, kind := range []string{"canceled", "deadline", "eof", "wrapped"} {
+			a2 := base()
+			a2.HandlerErrAt = k
+			a2.HandlerErrKind = kind
+			out = append(out, a2)
+		}
 		b := base()
 		b.End = "idle"
 		b.CancelAtTx = k
@@ -450,6 +456,11 @@ func modeC07(e *Env) {
 			a.Fault = &Fault{Kind: "eof", At: 0}
 			atts = append(atts, a)
 		}
+		if i%5 == 2 {
+			f := defaultAttempt()
+			f.ConnFault = pickS(e.R, "set_then_reset", "set_err", "dump_close", "handshake_close")
+			atts = append([]AttemptPlan{f}, atts...)
+		}
 		id++
 		sc := &StreamScenario{ID: id, Fam: "c07", Log: l, Start: Pos{name, off}, ServerID: sid, Attempts: atts, Note: "bare"}
 		if i%4 == 1 && nat > 1 {
@@ -473,8 +484,9 @@ func modeC07(e *Env) {
 				// any fault kind of the session model (handler error, mapper faults, injected events, cancels, transport)
 				a = all[e.R.Intn(len(all))]
 			case 1:
-				// the master rejects SET @master_binlog_checksum: no dump request may follow
-				a.ConnFault = "set_err"
+				// the master rejects SET @master_binlog_checksum: no dump request may follow; or the connection dies
+				// right after the SET so that writing the dump request fails
+				a.ConnFault = pickS(e.R, "set_err", "set_then_reset")
 			default:
 				a.Fault = &Fault{Kind: transportFaults[e.R.Intn(len(transportFaults))], At: e.R.Intn(npk + 1), Code: 1236, Msg: "x"}
 			}
@@ -566,7 +578,7 @@ func stopPlans(l *Log, start Pos, r *rand.Rand, stride int) []AttemptPlan {
 		}
 	}
 	// connection-stage failures
-	for _, cf := range []string{"handshake_close", "handshake_err", "set_err", "dump_close", "dump_err"} {
+	for _, cf := range []string{"handshake_close", "handshake_err", "set_err", "set_then_reset", "dump_close", "dump_err"} {
 		a := defaultAttempt()
 		a.ConnFault = cf
 		out = append(out, a)
